@@ -187,6 +187,9 @@ class _HamiltonianDynamicsService(_DynamicsServiceBase):
         """
         conversion = self.registry.conversion
         result = conversion.convert(other, target_cls, **kwargs)
+        if isinstance(result, tuple):
+            # The Lie-series edges return (Hamiltonian, generating functions).
+            result = result[0]
         return target_cls(result.poly_H, result.degree, result.ndof, result.name)
 
     def to_state(self, target_form: Union[type["Hamiltonian"], str], **kwargs) -> "Hamiltonian":
